@@ -19,7 +19,7 @@
 From Coq Require Import String Ascii List Bool Arith ZArith PrimFloat.
 Import ListNotations.
 Require Import Generated PyBase PyStr Lex Format Symbols Split Merge ParseEq ParseModel Solver SolverF Eval EvalFacts EvalF.
-Require Import CodeGen CodeGenF CodeGenFacts CodeGenFacts2 CodeGenFacts3 CodeGenFacts4 CodeGenFacts5 CodeGenFacts6 CodeGenFacts7 CodeGenFacts8 LexFacts CodeGenLexFacts CodeGenSrc CodeGenSrcFacts CodeGenSrcFacts2 CodeGenBlock CodeGenBlockFacts CodeGenExamples.
+Require Import CodeGen CodeGenF CodeGenFacts CodeGenFacts2 CodeGenFacts3 CodeGenFacts4 CodeGenFacts5 CodeGenFacts6 CodeGenFacts7 CodeGenFacts8 CodeGenFacts9 LexFacts CodeGenLexFacts CodeGenSrc CodeGenSrcFacts CodeGenSrcFacts2 CodeGenBlock CodeGenBlockFacts CodeGenExamples.
 Open Scope string_scope.
 
 (* ======================= Part A: the generated text ======================= *)
@@ -65,6 +65,29 @@ Theorem C01_endogenous_symbols_carry_the_rendered_statement eq syms :
                      (stype s = TEndogenous -> sequation s = Some std /\ scode s = Some code)) syms.
 Proof. exact (endogenous_symbols_carry_code_text eq syms). Qed.
 Print Assumptions C01_endogenous_symbols_carry_the_rendered_statement.
+
+(* whole model: the code attached to ANY symbol of the merged list of an accepted script is the code parse_equation
+   returned for one of the script's statements — the cross-equation merge never edits, mixes or invents a code string
+   (with or without the syntax check, whatever the check oracle answers) … *)
+Theorem C01_model_code_provenance chk cs script syms x c :
+  parse_model_M chk cs script = POk syms -> In x syms -> scode x = Some c ->
+  exists st L y, In st (fst (split_M script)) /\ parse_equation_M st = POk L /\ In y L /\ scode y = Some c.
+Proof. exact (model_code_provenance chk cs script syms x c). Qed.
+Print Assumptions C01_model_code_provenance.
+(* … so it IS the rendering of that statement whenever the statement meets the guard of the text-level theorem *)
+Theorem C01_model_code_is_rendered_statement chk cs script syms x c :
+  parse_model_M chk cs script = POk syms -> In x syms -> scode x = Some c ->
+  exists st, In st (fst (split_M script)) /\
+    (is_blank st = false -> head_is "`" st && last_is "`" st = false -> aligned st -> gaps_brace_free (scan_items st) = true ->
+     code_text st = Some c).
+Proof. exact (model_code_is_rendered_statement chk cs script syms x c). Qed.
+Print Assumptions C01_model_code_is_rendered_statement.
+Theorem C01_model_code_instance :
+  exists syms, parse_model_nocheck scriptC = POk syms /\
+    map scode (filter emits syms) = [Some "self._Y[t] = 2*self._X[t-1] + self._a[t]"; Some "self._X[t] = -self._Y[t]*self._Y[t]/4";
+                                     Some "self._Z[t] = max(self._W[t], self._Y[t]) - self._e[t]"].
+Proof. exact scriptC_codes. Qed.
+Print Assumptions C01_model_code_instance.
 
 (* the whitespace normalisation neither drops, adds nor reorders a match *)
 Theorem C01_normalisation_keeps_matches l : matches_of (norm_items l) = matches_of l.
